@@ -170,7 +170,7 @@ def translate(h, wd):
     m = load_module(ll)
     e = Flat(m, list(h.stubs), list(h.visible), noglobal=list(h.noglobal), seq=h.seq)
     e.blocking = set(h.blocking); e.icall_only = set(h.icall_only); e.nt = h.nt; e.heap = h.heap; e.pagewords = h.pagewords
-    e.nsw = h.nsw; e.prune_init = h.prune_init; e.extra_fns = dict(h.harness_fns or {})
+    e.nsw = h.nsw; e.prune_init = h.prune_init; e.extra_fns = dict(h.harness_fns or {}); e.select_branch = bool(h.paths)
     out = e.translate(list(h.entries))
     open(os.path.join(wd, 'model.c'), 'w').write(out)
     funcs = sorted(n for n in e.fseen if m.funcs[n].defined and n not in e.stubs and not n.startswith('llvm.'))
